@@ -30,7 +30,7 @@ def IsBuilt (F : Framing) (decode : Bytes → PyM (Option μ)) (units : List Nat
     | .tcp => f.bytes = tcpFrame f.tid f.pid f.uid fc data
     | .rtu rule => f.bytes = rtuFrame f.uid fc data ∧ f.tid = f.uid ∧ f.pid = 0 ∧ RtuSized rule (rtuFrame f.uid fc data)
     | .ascii => f.bytes = asciiFrame f.uid fc data ∧ f.tid = 0 ∧ f.pid = 0 ∧ f.uid < 256 ∧ fc < 256 ∧ Bytes.WF data
-    | .binary => f.bytes = binFrame f.uid fc data ∧ f.tid = 0 ∧ f.pid = 0 ∧ NoDelim (binBody f.uid fc data)
+    | .binary => f.bytes = binFrame f.uid fc data ∧ f.tid = 0 ∧ f.pid = 0 ∧ NoEnd (binBody f.uid fc data)
 
 theorem built_good (F : Framing) (decode : Bytes → PyM (Option μ)) (units : List Nat) (single : Bool)
     (f : VFrame μ) (h : IsBuilt F decode units single f) : Good (stepOf F) decode units single f := by
@@ -109,5 +109,12 @@ example :
     let f2 := tcpFrame 2 0 17 6 [0, 1, 0, 9]
     (feedAll tcpStep d [17] false [] [f1.take 3, f1.drop 3 ++ f2.take 5, [], f2.drop 5]).1.flatten =
       [.deliver [3, 0, 0, 0, 2] 17 1 0, .deliver [6, 0, 1, 0, 9] 17 2 0] := by rfl
+
+/-- Non-vacuity of the binary case beyond delimiter-free frames: `{ 11 03 00 A8 00 02 47 7B }` carries the START delimiter
+    0x7B in its CRC (the sender does not escape the CRC).  It satisfies `NoEnd` — all the receiver needs — though not
+    `NoDelim`, so `chunking_independent` covers it at every cut (the cut seeded change C06-13 broke included). -/
+example : NoEnd (binBody 0x11 3 [0, 0xA8, 0, 2]) ∧ ¬ NoDelim (binBody 0x11 3 [0, 0xA8, 0, 2]) ∧
+    binFrame 0x11 3 [0, 0xA8, 0, 2] = [0x7B, 0x11, 3, 0, 0xA8, 0, 2, 0x47, 0x7B, 0x7D] := by
+  unfold NoEnd NoDelim; decide +kernel
 
 end Pymodbus.Props.C06
